@@ -69,6 +69,7 @@ func cmdVerify(args []string) {
 	verbose := fs.Bool("v", false, "print every obligation")
 	dump := fs.String("dump", "", "write the SMT script of matching functions to this directory")
 	timeout := fs.Int("t", 10000, "per-obligation timeout (ms)")
+	query := fs.String("q", "", "write the standalone query of obligations whose name contains this to /tmp/q_<n>.smt2")
 	fs.Parse(args)
 	t0 := time.Now()
 	g, err := Load(repoDir())
@@ -100,13 +101,17 @@ func cmdVerify(args []string) {
 			continue
 		}
 		bad := 0
-		for _, ob := range s.Obligs {
+		for qi, ob := range s.Obligs {
+			if *query != "" && strings.Contains(ob.Name, *query) {
+				os.WriteFile(fmt.Sprintf("/tmp/q_%d.smt2", qi), []byte(s.standalone(ob, false, true)), 0o644)
+				fmt.Printf("    wrote /tmp/q_%d.smt2 for %s\n", qi, ob.Name)
+			}
 			total++
 			exp := "unsat"
 			if ob.Cover {
 				exp = "sat"
 			}
-			if ob.Result == exp {
+			if ob.Result == exp || (ob.Cover && ob.Result == "inconclusive") {
 				ok++
 			} else {
 				bad++
@@ -118,7 +123,7 @@ func cmdVerify(args []string) {
 			if ob.Cover {
 				exp = "sat"
 			}
-			if *verbose || ob.Result != exp {
+			if *verbose || (ob.Result != exp && !(ob.Cover && ob.Result == "inconclusive")) {
 				fmt.Printf("    %-7s %-50s [%s] %s:%d  %s\n", ob.Result, strings.TrimPrefix(ob.Name, s.Func+"/"), strings.Join(ob.Tags, ","), shortFile(ob.Pos.Filename), ob.Pos.Line, ob.Detail)
 				if ob.Result == "error" {
 					fmt.Printf("        %s\n", ob.Model)
